@@ -153,6 +153,29 @@ func connCertainEnd(c *Conn) int64 {
 	return inf
 }
 
+// beforeHalfClose reports whether packet w was completely written before the
+// client half-closed the connection (FIN, still reading) on a connection that
+// carried no DISCONNECT and that the broker was not asked to close before;
+// it returns the quiescence point by which the broker has dealt with it.
+func (m *Model) beforeHalfClose(c *Conn, w *WirePkt) (int64, bool) {
+	if c.HalfClosed == 0 || w.Last >= c.HalfClosed {
+		return 0, false
+	}
+	if m.H.ServerCloseCall > 0 && m.H.ServerCloseCall < c.HalfClosed {
+		return 0, false
+	}
+	for _, u := range c.Up {
+		if u.P.Type == refmqtt.DISCONNECT {
+			return 0, false
+		}
+	}
+	q := m.nextQuiescence(c.HalfClosed)
+	if q == inf {
+		q = m.H.FinalStamp
+	}
+	return q, true
+}
+
 func analyze(h *Hist) *Model {
 	m := &Model{H: h, Reqs: map[*Conn][]*Req{}, RespMismatch: map[*Conn]string{}, ExemptWills: map[string]bool{}}
 	m.Q = append(m.Q, h.Quiesce...)
@@ -256,6 +279,12 @@ func (m *Model) buildPubs() {
 				if hi < inf {
 					pub.Certain = true
 					pub.Hi = hi
+				} else if q, ok := m.beforeHalfClose(c, w); ok {
+					// the client shut down its sending direction after this
+					// packet and went on reading: the broker has received it and
+					// processes what it has received
+					pub.Certain = true
+					pub.Hi = q
 				} else if p.QoS == 1 {
 					// a PUBACK proves acceptance even if the connection ended
 					for _, rq := range m.Reqs[c] {
@@ -296,6 +325,9 @@ func (m *Model) buildPubs() {
 						pub.Certain = true
 						pub.Hi = hi
 					} else if q := m.nextQuiescence(w.Last); q <= end {
+						pub.Certain = true
+						pub.Hi = q
+					} else if q, ok := m.beforeHalfClose(c, w); ok {
 						pub.Certain = true
 						pub.Hi = q
 					}
